@@ -12,6 +12,7 @@ type dataFault struct {
 	remove bool
 	names  string // the setting the error must name
 	kind   string
+	strict bool // with remove: the setting at fault is still there (and has a source), what it points to is gone
 }
 
 func copyIn(v interface{}) interface{} {
@@ -85,8 +86,12 @@ func faultsFor(fc *FieldCase) []dataFault {
 		out = append(out, dataFault{path: at, value: v, names: names, kind: kind})
 	}
 	obj := map[string]interface{}{"zq": uint64(1)}
+	if fc.Ref {
+		// the setting stays, what it refers to disappears: an unresolvable reference
+		return []dataFault{{path: fc.refName(), remove: true, names: p, kind: "unresolvable reference", strict: true}}
+	}
 	switch fc.F.Kind {
-	case KInt, KPInt, KVInt, KUInt, KF64, KUFloat, KBool, KUBool, KPI:
+	case KInt, KPInt, KVInt, KUInt, KF64, KUFloat, KBool, KUBool, KPI, KUUint:
 		add("unparsable string for a number / boolean", p, "zz", p)
 		add("object where a primitive is expected", p, obj, p)
 	case KInt8:
@@ -107,8 +112,17 @@ func faultsFor(fc *FieldCase) []dataFault {
 		add("primitive where an object is expected", p, uint64(5), p)
 	case KSInt, KSVInt, KPSInt:
 		add("wrong type inside a list", p+".0", "zz", p+".0")
-	case KSStr:
+	case KSStr, KSUStr:
 		add("wrong type inside a list", p+".0", obj, p+".0")
+	case KSUCfg:
+		add("primitive where an object is expected", p+".1", uint64(5), p+".1")
+	case KSMap:
+		add("wrong type inside a map", p+".1.q", "zz", p+".1.q")
+		add("primitive where an object is expected", p+".0", uint64(5), p+".0")
+	case KRegex:
+		// (an object for a regexp field is taken as the fields of the struct regexp.Regexp, of which none
+		// is exported: it yields the empty expression. No claimed property says it must fail: not injected.)
+		add("invalid regular expression", p, "a(b", p)
 	case KA2:
 		add("wrong length for a fixed-size array", p, []interface{}{uint64(1)}, p)
 		add("wrong length for a fixed-size array", p, []interface{}{uint64(1), uint64(2), uint64(3)}, p)
@@ -175,7 +189,7 @@ func (e *E) dataFaults() {
 			continue
 		}
 		// an absent setting has no source to mention
-		e.checkError(err, "Unpack", []string{df.names}, df.remove, what)
+		e.checkError(err, "Unpack", []string{df.names}, df.remove && !df.strict, what)
 		e.checkUnchanged(t, snap, "Unpack", what)
 	}
 }
